@@ -190,4 +190,65 @@ theorem singleReverse_gen {cx : Ctx} (u : Nat → Bool) (w : RW cx cx.cs.rev) (h
     obtain ⟨k1, k2⟩ := reverseJourney_some cx s bd node
     exact ⟨fun r hr' => by rw [k1 r hr']; omega, k2⟩
 
+theorem rfoot_flip {ds : Dataset} {z : Nat} {f : NTD} (h : f ∈ ds.rfootOf z) :
+    (⟨z, f.time, f.dist⟩ : NTD) ∈ ds.footOf f.stop := by
+  have hm := rfootOf_mem h
+  simp only [Dataset.footOf, List.mem_filterMap]
+  exact ⟨_, hm, by simp⟩
+
+/-- a later requested arrival only helps -/
+theorem RReach.arrT_mono {cx : Ctx} {A' : Int} (hA : cx.arrT ≤ A') {C : List Conn} {y : Nat} {t : Int} (h : RReach cx C y t) :
+    ∃ t', t ≤ t' ∧ RReach { cx with arrT := A' } C y t' := by
+  induction h with
+  | egress g hg =>
+    exact ⟨A' - g.time, by omega, RReach.egress (cx := { cx with arrT := A' }) g hg⟩
+  | ride z t e x f _ he hx h1 h2 h3 h4 h5 h6 h7 h8 h9 ih =>
+    obtain ⟨t', ht', hr'⟩ := ih
+    exact ⟨_, Int.le_refl _, RReach.ride (cx := { cx with arrT := A' }) z t' e x f hr' he hx h1 (by omega) h3 h4 h5 h6 h7 h8 h9⟩
+
+/-- **the continuation of a journey whose earlier part the forward scan has seen only uses trips
+    flagged usable**: walk the reverse derivation forwards, boarding each of its rides -/
+theorem rreach_usable {cx cx' : Ctx} {L P Lr : List Conn} {s : FState} {β : Int} (w : FW cx L) (wr : RW cx' Lr)
+    (hPL : ∀ a ∈ P, a ∈ L) (hLr : ∀ a ∈ Lr, a ∈ L)
+    (hF : FCβ cx β P s) (hin : ∀ a ∈ L, cx.depT ≤ a.dep → a ∈ P) (hβ : cx'.arrT ≤ β)
+    (hsame : cx'.ds = cx.ds ∧ cx'.p = cx.p ∧ cx'.disabled = cx.disabled)
+    {y : Nat} {t : Int} (h : RReach cx' Lr y t) :
+    ∀ (e x : Conn), e ∈ P → x ∈ P → BoardP cx P e → e.trip = x.trip → e.seq ≤ x.seq → x.canUnboard = true →
+      x.arrStop = y → x.arr ≤ t →
+      RReach cx' (Lr.filter fun c => s.usable c.trip) y t := by
+  induction h with
+  | egress g hg => intro _ _ _ _ _ _ _ _ _ _; exact RReach.egress g hg
+  | ride z tz e1 x1 f hsub he1 hx1 h1 h2 h3 h4 h5 h6 h7 h8 h9 ih =>
+    intro e x he hx hb htr hsq hcu hstop harr
+    obtain ⟨hds, hpp, hdis⟩ := hsame
+    have hb0 := hb
+    obtain ⟨hcb, hdi, te, hre, hte⟩ := hb
+    have hf' : (⟨e1.depStop, f.time, f.dist⟩ : NTD) ∈ cx.ds.footOf x.arrStop := by
+      rw [hstop, ← hds]; exact rfoot_flip h8
+    have hw1 := effWait_nonneg e1 cx.p.minWait w.mw
+    have hwe := effWait_nonneg e cx.p.minWait w.mw
+    have hfn := w.footNonneg _ _ hf'
+    have hge := hre.time_ge w hPL
+    have hmin : 0 ≤ cx.minAccess := minTime_nonneg cx.accessFoot w.accNonneg
+    have hdm := w.depMono e (hPL e he) x (hPL x hx) htr hsq
+    have hph := w.posHop x (hPL x hx)
+    have hmw1 : e1.effWait cx'.p.minWait = e1.effWait cx.p.minWait := by rw [hpp]
+    have harr' : x.arr ≤ e1.dep - f.time - e1.effWait cx.p.minWait := by rw [← hmw1]; exact harr
+    have hfn' : 0 ≤ f.time := hfn
+    have hreach1 : Reach cx P e1.depStop (x.arr + f.time) :=
+      Reach.ride e.depStop te e x ⟨e1.depStop, f.time, f.dist⟩ hre he hx rfl hte htr hsq hcb hcu hdi hf' (by rw [← hpp]; exact h9)
+    have hboard1 : BoardP cx P e1 := ⟨h5, by rw [← hdis]; exact h7, _, hreach1, by omega⟩
+    have he1L := hLr e1 he1
+    have hx1L := hLr x1 hx1
+    have he1P : e1 ∈ P := hin e1 he1L (by omega)
+    have hdm1 := w.depMono e1 he1L x1 hx1L h3 h4
+    have hx1P : x1 ∈ P := hin x1 hx1L (by omega)
+    have hph1 := w.posHop x1 hx1L
+    have htz := hsub.time_le wr (fun a ha => ha)
+    have hen1 := hF.enter e1 he1P hboard1 (by omega)
+    have hu1 := hF.usable e1.trip hen1
+    have hsub' := ih e1 x1 he1P hx1P hboard1 h3 h4 h6 h1 h2
+    exact RReach.ride z tz e1 x1 f hsub' (List.mem_filter.mpr ⟨he1, hu1⟩) (List.mem_filter.mpr ⟨hx1, by rw [← h3]; exact hu1⟩)
+      h1 h2 h3 h4 h5 h6 h7 h8 h9
+
 end Tr
